@@ -1446,8 +1446,15 @@ def xsd_schema_check(file_path, directory_file, xsd_file):
 
 def test_for_missing_files(not_found_paths, root_path, ignore_spec: MHLIgnoreSpec = MHLIgnoreSpec()):
     ignore_path_spec = ignore_spec.get_path_spec()
+
+    def is_ignored(relative_path):
+        # the traversal never descends into an ignored folder, so everything below one is ignored as well
+        # (a negated pattern can't re-include a path whose parent folder is excluded)
+        parts = relative_path.split(os.sep)
+        return any(ignore_path_spec.match_file(os.sep.join(parts[: i + 1])) for i in range(len(parts)))
+
     # update to exclude our ignored files
-    not_found_paths = [x for x in not_found_paths if not ignore_path_spec.match_file(os.path.relpath(x, root_path))]
+    not_found_paths = [x for x in not_found_paths if not is_ignored(os.path.relpath(x, root_path))]
     if len(not_found_paths) == 0:
         return None
     # test our not_found_paths against our ignore spec to ensure these weren't explicitly ignored.
